@@ -267,6 +267,12 @@ func legalCases(defs []cmdDef, thorough bool) []legalCase {
 				enables = append(enables, "IMAP4rev2")
 			}
 		}
+		if cfg.litPlus || cfg.litMinus || cfg.rev2 {
+			// the capabilities are withdrawn: LOGIN is answered OK without a capability code (which
+			// invalidates what the greeting said) and the CAPABILITY the client then asks for lists
+			// IMAP4rev1 only; what is sent afterwards is judged against that
+			enables = append(enables, "@login-drops-caps")
+		}
 		for _, en := range enables {
 			for di, d := range defs {
 				for pos := 0; pos < d.nstr; pos++ {
@@ -348,7 +354,13 @@ func legalBody(lc legalCase, defs []cmdDef) func() interface{} {
 		if err := c.WaitGreeting(); err != nil {
 			return []problem{{"engine:greeting", err.Error()}}
 		}
-		if lc.Enable != "" {
+		if lc.Enable == "@login-drops-caps" {
+			if err := c.Login("u", "p").Wait(); err != nil {
+				return []problem{{"engine:login", err.Error()}}
+			}
+			cfg.litPlus, cfg.litMinus, cfg.rev2, cfg.utf8 = false, false, false, false
+			cfg.name += "-withdrawn"
+		} else if lc.Enable != "" {
 			if _, err := c.Enable(imap.Cap(strings.TrimSuffix(strings.TrimSuffix(lc.Enable, "!declined"), "!unauthenticated"))).Wait(); err != nil {
 				return []problem{{"engine:enable", err.Error()}}
 			}
@@ -750,7 +762,7 @@ func main() {
 	run.Set("delay_bound", int64(dbound))
 	run.Set("preemption_bound", int64(pbound))
 	run.Exhaustive = exhaustive
-	run.Rule = "legality: (capability configuration in {rev1, LITERAL-, LITERAL+, IMAP4rev2, UTF8=ACCEPT advertised, capabilities unknown}) x (nothing / UTF8=ACCEPT / IMAP4rev2 enabled where offered / UTF8=ACCEPT asked but not granted / UTF8=ACCEPT granted, then UNAUTHENTICATE and a new LOGIN) x 24 commands (every client command that takes caller strings, incl. QUOTA, METADATA, SORT, THREAD, MOVE, SEARCH under NOT/OR and the CONDSTORE entry name) x every member of a 21-string alphabet (NUL, CR LF, quote, backslash, 8-bit valid and invalid UTF-8, literal-looking text, lengths 4096/4097) in every string position and all pairs, plus APPEND sizes {0,1,4096,4097,70000}; the bytes the real client writes are judged by an independent scanner. synchronisation: 16 scenarios (LOGIN user/password/both literals, APPEND, SEARCH, two threads with literals; server grants, or refuses with NO/BAD) x all schedules within delay bound and preemption bound; connection write hooks flag bytes written while a continuation is awaited and payload bytes after a refusal"
+	run.Rule = "legality: (capability configuration in {rev1, LITERAL-, LITERAL+, IMAP4rev2, UTF8=ACCEPT advertised, capabilities unknown}) x (nothing / UTF8=ACCEPT / IMAP4rev2 enabled where offered / UTF8=ACCEPT asked but not granted / UTF8=ACCEPT granted, then UNAUTHENTICATE and a new LOGIN / capabilities withdrawn by a LOGIN without capability code followed by a shorter CAPABILITY list) x 24 commands (every client command that takes caller strings, incl. QUOTA, METADATA, SORT, THREAD, MOVE, SEARCH under NOT/OR and the CONDSTORE entry name) x every member of a 21-string alphabet (NUL, CR LF, quote, backslash, 8-bit valid and invalid UTF-8, literal-looking text, lengths 4096/4097) in every string position and all pairs, plus APPEND sizes {0,1,4096,4097,70000}; the bytes the real client writes are judged by an independent scanner. synchronisation: 16 scenarios (LOGIN user/password/both literals, APPEND, SEARCH, two threads with literals; server grants, or refuses with NO/BAD) x all schedules within delay bound and preemption bound; connection write hooks flag bytes written while a continuation is awaited and payload bytes after a refusal"
 	run.Assume("legality is judged against what the server ADVERTISED (greeting) and what was ENABLED; CHARSET usage is not judged (the statement does not mention it)")
 	run.Finish()
 }
